@@ -94,3 +94,9 @@ add('C19', 'Hypothesis-generated parameterised energies, parameter changes, prec
     'refresh on or off, checking after every step that objective.p is the requested set and that a True flag refers to it. Sampling.',
     'scipy cg relative tolerance 1e-5 (2e-5 allowed) is the accuracy of the predictor; the augmented-Lagrangian and bound-constrained drivers are exercised under C04; '
     'RuntimeError("No acceptable Cauchy point") from the SPG solver is a documented non-return (counted as inconclusive).')
+add('C05', 'Hypothesis-generated boxes (finite / one-sided / degenerate), feasible starts on faces and vertices, objective families and SPG settings; validity-predicate, history-invariant and reference-solution oracles',
+    'Generated search: project() against the clamp and the projection inequality, project_onto_tr() for membership in box and ball, and solver runs (both entry points, monotone and non-monotone '
+    'spectral line search) checked for feasibility of every reported iterate, monotone objective, recomputed projected-gradient measure on success and agreement with an independent, KKT-verified '
+    'bound-constrained minimiser on convex families. Sampling.',
+    'Feasibility allowance 16 ulp*(|x|+radius); ball membership to the brentq tolerance 8e-12*|x-x_k| (ratios up to 1e6); D9 (uphill trial point returned by the convergence exit) shared with C01; '
+    'RuntimeError("No acceptable Cauchy point") counted as a documented non-return.')
